@@ -26,6 +26,10 @@ type LoopContract struct {
 	Invariants []*Clause
 	Decreases  []*Clause
 	Unroll     int
+	UseEntry   []*Clause // ... assumed when the loop is first reached, before the invariant is checked
+	Use        []*Clause // instances of trusted axiom schemata assumed at the loop head
+	UseEnd     []*Clause // ... assumed at the end of each iteration (may mention head(e))
+	Steps      []*Clause // relations between the head state and the end of one iteration (body_ensures)
 }
 
 type SpecParam struct {
@@ -40,6 +44,8 @@ type SpecDef struct {
 	Body   ast.Expr // nil => uninterpreted
 	Pkg    string
 	Src    string
+	Schema bool // a trusted axiom schema: may only be used through `use` clauses; listed as an assumption
+	Uses   int
 }
 
 type FuncContract struct {
@@ -59,6 +65,10 @@ type FuncContract struct {
 	ParamNames []string
 	ResNames   []string
 	Lemmas     []*Clause
+	Use        []*Clause // axiom-schema instances assumed at function entry
+	UseEnd     []*Clause // ... assumed at each normal return, before the ensures are checked
+	Snapshots  map[string]string // name -> "typeswitch 1" etc.: named snapshots of the state before a statement
+	PostOrder  []*Clause         // ensures and use_end clauses in file order
 	GhostAx    []*Clause // recurrence axioms of uninterpreted ghost functions (must be definitional; listed as assumptions)
 	File       string
 	Line       int
@@ -66,14 +76,16 @@ type FuncContract struct {
 }
 
 type Contracts struct {
-	Funcs  map[string]*FuncContract
-	Specs  map[string]*SpecDef // pkg.name and bare name
-	Axioms []*Clause
-	Files  []string
+	Funcs     map[string]*FuncContract
+	Specs     map[string]*SpecDef // pkg.name and bare name
+	Axioms    []*Clause
+	Files     []string
+	GhostVars map[string]ast.Expr // ghost global variables: name -> type expression
+	GhostPkg  map[string]string
 }
 
 func newContracts() *Contracts {
-	return &Contracts{Funcs: map[string]*FuncContract{}, Specs: map[string]*SpecDef{}}
+	return &Contracts{Funcs: map[string]*FuncContract{}, Specs: map[string]*SpecDef{}, GhostVars: map[string]ast.Expr{}, GhostPkg: map[string]string{}}
 }
 
 var labelRe = regexp.MustCompile(`^\[([A-Za-z0-9_.:#+\-]+)\]\s*`)
@@ -134,11 +146,23 @@ func (cs *Contracts) load(path string) error {
 		case "package":
 			pkg = rest
 			cur, loop = nil, nil
-		case "spec", "specfun":
+		case "ghostvar":
+			f := strings.Fields(rest)
+			if len(f) != 2 {
+				return fmt.Errorf("%s:%d: ghostvar NAME TYPE", path, l.line)
+			}
+			te, err := parser.ParseExpr(f[1])
+			if err != nil {
+				return fmt.Errorf("%s:%d: %v", path, l.line, err)
+			}
+			cs.GhostVars[f[0]] = te
+			cs.GhostPkg[f[0]] = pkg
+		case "spec", "specfun", "axiomschema":
 			sd, err := parseSpecDef(rest, word == "specfun")
 			if err != nil {
 				return fmt.Errorf("%s:%d: %v", path, l.line, err)
 			}
+			sd.Schema = word == "axiomschema"
 			sd.Pkg = pkg
 			cs.Specs[sd.Name] = sd
 			cur, loop = nil, nil
@@ -200,13 +224,22 @@ func (cs *Contracts) load(path string) error {
 				return fmt.Errorf("%s:%d: bad unroll", path, l.line)
 			}
 			loop.Unroll = n
+		case "snapshot":
+			f := strings.Fields(rest)
+			if cur == nil || len(f) != 3 {
+				return fmt.Errorf("%s:%d: snapshot NAME KIND ORDINAL", path, l.line)
+			}
+			if cur.Snapshots == nil {
+				cur.Snapshots = map[string]string{}
+			}
+			cur.Snapshots[f[1]+" "+f[2]] = f[0]
 		case "ghost":
 			sd, err := parseSpecDef(rest, false)
 			if err != nil {
 				return fmt.Errorf("%s:%d: %v", path, l.line, err)
 			}
 			cur.Ghosts = append(cur.Ghosts, sd)
-		case "requires", "ensures", "invariant", "decreases", "assigns", "panics", "lemma", "ghostaxiom":
+		case "requires", "ensures", "invariant", "decreases", "assigns", "panics", "lemma", "ghostaxiom", "use", "use_end", "use_entry", "step":
 			if cur == nil {
 				return fmt.Errorf("%s:%d: clause outside func", path, l.line)
 			}
@@ -234,10 +267,34 @@ func (cs *Contracts) load(path string) error {
 				cur.Requires = append(cur.Requires, c)
 			case "ensures":
 				cur.Ensures = append(cur.Ensures, c)
+				cur.PostOrder = append(cur.PostOrder, c)
 			case "lemma":
 				cur.Lemmas = append(cur.Lemmas, c)
 			case "ghostaxiom":
 				cur.GhostAx = append(cur.GhostAx, c)
+			case "use":
+				if loop != nil {
+					loop.Use = append(loop.Use, c)
+				} else {
+					cur.Use = append(cur.Use, c)
+				}
+			case "use_end":
+				if loop != nil {
+					loop.UseEnd = append(loop.UseEnd, c)
+				} else {
+					cur.UseEnd = append(cur.UseEnd, c)
+					cur.PostOrder = append(cur.PostOrder, c)
+				}
+			case "use_entry":
+				if loop == nil {
+					return fmt.Errorf("%s:%d: use_entry outside loop", path, l.line)
+				}
+				loop.UseEntry = append(loop.UseEntry, c)
+			case "step":
+				if loop == nil {
+					return fmt.Errorf("%s:%d: step outside loop", path, l.line)
+				}
+				loop.Steps = append(loop.Steps, c)
 			case "panics":
 				cur.Panics = c
 			case "invariant":
